@@ -559,3 +559,7 @@ PROPS["C19"]["suites"]["pool_mt"] = {"kind": "oracle", "nvh_suite": "pool_mt", "
 PROPS["C19"]["level_text"] += (" The order of semaphore and queue operations the micro-step model assumes (permit before pop in acquire and "
                                "try_acquire, push before permits in release_buffers, no unsafe) is read from pool.rs on every run; the pool_mt suite "
                                "stresses the real pool with 6 threads (exclusive stamps, no panic, everything back, capacity re-acquirable).")
+
+
+# C07: name reuse after disconnects is dense in the churn histories (same-name reconnects, failing notifications)
+PROPS["C07"]["suites"]["churn"] = dict(CHURN_SUITE["churn"], projection=PROPS["C07"]["suites"]["srv"]["projection"], oracle_tags=["C07"], depends=STATE_DEPENDS)
